@@ -55,7 +55,7 @@ def build_object(m: Machine, uid, spec):
     pos, quat, ts = gen_traj_data(spec["data_seed"], spec["n"],
                                   spec.get("profile", {}))
     R = np.array([quat_to_rot(q) for q in quat])
-    if spec["ctor"] in ("se3", "all"):
+    if spec["ctor"] in ("se3", "all", "se3_nd"):
         poses = []
         for i in range(spec["n"]):
             P = np.eye(4)
@@ -64,6 +64,11 @@ def build_object(m: Machine, uid, spec):
             poses.append(P)
         Rm = np.array([P[:3, :3] for P in poses], dtype=LD)
         meta = copy.deepcopy(spec.get("meta"))
+        if spec["ctor"] == "se3_nd":
+            # the poses as ONE (N,4,4) float array instead of a list of 4x4s
+            # (slices of it, e.g. in split parts, are views of one buffer)
+            poses = np.array(poses, dtype=float)
+            m.probe_hit("built_from_pose_ndarray")
         if spec["ctor"] == "all":
             # all three representations handed to the constructor
             # (consistent with each other): every cache exists from the start
@@ -367,7 +372,13 @@ def execute_step(m: Machine, step, prop_of):
                 return None
             allt = np.concatenate([x.model.t for x in ents])
             if len(np.unique(allt)) != len(allt):
-                return None  # equal stamps: order of the merge is unspecified
+                # equal stamps (e.g. two windows that share their boundary
+                # stamp): the order inside the merged object is unspecified,
+                # so it does not join the pool - but the call is made and the
+                # arguments must come out untouched like after any other call
+                evo.trajectory.merge([x.obj for x in ents])
+                m.probe_hit("merge_with_shared_stamps")
+                return [], [], False
             o = evo.trajectory.merge([x.obj for x in ents])
             order = np.argsort(allt, kind="stable")
             R = np.concatenate([x.model.R for x in ents])[order]
@@ -910,7 +921,8 @@ def gen_object_spec(rng, small=True):
         profile["tzero"] = rng.choice(["first", "mid"])
     if rng.random() < 0.12:
         profile["flat"] = rng.choice([1, 2, 3])  # exactly planar positions
-    spec = {"ctor": rng.choice(["se3", "xyzquat", "se3", "xyzquat", "all"]),
+    spec = {"ctor": rng.choice(["se3", "xyzquat", "se3", "xyzquat", "all",
+                                "se3_nd"]),
             "stamped": rng.random() < 0.7, "n": n,
             "data_seed": rng.getrandbits(32), "profile": profile}
     if rng.random() < 0.5:
